@@ -28,9 +28,9 @@ META = {
                   "through BET file info. Key derivation is checked on the model and by the round trip itself, not per trace event. "
                   "ADPCM (lossy) methods: once a lossy stage was applied only result class and length are demanded. quick = 144 "
                   "configurations (slice through version x shift in {0,3,8} x one more dimension, + 24 seed-rotated draws of the 31 104) "
-                  "+ 160 table-length cases; thorough = the full product of version x shift x method x enc x crc x attrs (7 776) with the "
+                  "+ 160 table-length, 84 field-width and 16 sector-count cases; thorough = the full product of version x shift x method x enc x crc x attrs (7 776) with the "
                   "(listfile, tablecomp) pair rotating by coordinate sum + seed (four consecutive seeds enumerate the whole "
-                  "31 104-configuration product) + quick slice + 100 draws + 160 table-length cases; the non-zero-offset re-open is done "
+                  "31 104-configuration product) + quick slice + 100 draws + the same 260 table / width / sector-count cases; the non-zero-offset re-open is done "
                   "for every archive in quick and every fourth in thorough.",
     "technique": "TLA+ writer/reader model checked by TLC; TLC-enumerated configurations replayed on the real builder/reader; trace validation by TLC",
     "design_ref": "DESIGN.md section 5, C01",
@@ -124,12 +124,14 @@ def stage_a(ctx):
     ctx.notes.append("tree under test: F-C01-a fix present: %s; BET table holds lookup3 hashes: %s" % (fixed, betfix))
     # the configuration that describes the code under test
     main = "MC_MpqBuild" if not fixed else ("MC_MpqBuild_betfix" if betfix else "MC_MpqBuild_fixed")
-    jobs = [(main, 7, None), ("MC_MpqBuild_neg", 1, "NegNoFlagDeviation")]
+    # negative controls: TLC must find the pre-9cf2783 layout counterexample, and the BET field-width counterexample when
+    # the stored-size column takes its width from the file sizes
+    jobs = [(main, 6, None), ("MC_MpqBuild_neg", 1, "NegNoFlagDeviation"), ("MC_MpqBuild_negbet", 1, "BetRoundTrip")]
     if ctx.thorough:
         others = [c for c in ("MC_MpqBuild", "MC_MpqBuild_fixed", "MC_MpqBuild_betfix") if c != main]
         jobs = [(main, 2, None), ("MC_MpqBuild_limits", 2, None), (others[0], 2, None), (others[1], 2, None),
-                ("MC_MpqBuild_neg", 1, "NegNoFlagDeviation")]
-    with cf.ThreadPoolExecutor(max_workers=5) as ex:
+                ("MC_MpqBuild_neg", 1, "NegNoFlagDeviation"), ("MC_MpqBuild_negbet", 1, "BetRoundTrip")]
+    with cf.ThreadPoolExecutor(max_workers=6) as ex:
         futs = [ex.submit(mc_nocov, ctx, "MC_MpqBuild", cfg, w, 1200, neg) for cfg, w, neg in jobs]
         for f in futs:
             f.result()
